@@ -122,6 +122,7 @@ type waitRT struct {
 	env     *runtimeEnv
 	w       time.Duration // the wait the retry loop is configured with (0 for a non-retryable node)
 	wMs     int
+	wUs     int
 	nItems  int
 	wide    bool
 	barrier int // number of "attempt preceding a scripted cancellation" returns after which the cancel is scheduled
@@ -282,7 +283,7 @@ func runWaitOnce(sc *WaitScenario) (res waitRun) {
 		ls.WaitCancel = []int{}
 		e.leafScr[[2]int{0, 0}] = &ls
 		if sc.Leaf.Retryable {
-			t.wMs = sc.Leaf.Wait
+			t.wMs, t.wUs = sc.Leaf.Wait, sc.Leaf.WaitUs
 		}
 		t.nItems = 1
 		if len(sc.LeafScript.WaitCancel) > 0 {
@@ -298,7 +299,7 @@ func runWaitOnce(sc *WaitScenario) (res waitRun) {
 			bs.Items[i].WaitCancel = []int{}
 		}
 		e.batchScr[[2]int{0, 0}] = &bs
-		t.wMs = sc.Batch.Wait
+		t.wMs, t.wUs = sc.Batch.Wait, sc.Batch.WaitUs
 		t.nItems = len(bs.Items)
 		t.wide = sc.Batch.Conc >= 2
 		for _, it := range sc.BatchScript.Items {
@@ -317,7 +318,7 @@ func runWaitOnce(sc *WaitScenario) (res waitRun) {
 	default:
 		panic("bad wait scenario")
 	}
-	t.w = time.Duration(t.wMs) * time.Millisecond
+	t.w = waitDur(t.wMs, t.wUs)
 	e.nodes[0] = node
 
 	if sc.PanicAt != "" {
@@ -709,6 +710,9 @@ func genC20(r *rng, thorough bool, emit func(WaitScenario)) {
 						}
 						cfg := cfg0
 						cfg.Budget, cfg.Wait = N, w
+						if w <= 10 && (N+f)%2 == 0 {
+							cfg.WaitUs = 300 + r.intn(190) // a wait that is not a whole number of milliseconds
+						}
 						sc := waitLeafScenario(t, "canceled", cfg, f, sleepsFor(r, slow, f, N+1), nil, "gaps")
 						sc.WatchMs = realWatch(N, w, 1)
 						emit(sc)
@@ -745,7 +749,11 @@ func genC20(r *rng, thorough bool, emit func(WaitScenario)) {
 							fs[i] = r.intn(N + 1)
 						}
 						fs[r.intn(n)] = 1 + r.intn(N) // at least one retry
-						bsc := waitBatchScenario(t, "canceled", batchCfg(N, w, conc, conc < 2 && r.chance(25)), fs, r.chance(50), nil, "batch-gaps")
+						bc := batchCfg(N, w, conc, conc < 2 && r.chance(25))
+						if w <= 10 && (N+n)%2 == 0 {
+							bc.WaitUs = 300 + r.intn(190)
+						}
+						bsc := waitBatchScenario(t, "canceled", bc, fs, r.chance(50), nil, "batch-gaps")
 						bsc.WatchMs = realWatch(N, w, n)
 						emit(bsc)
 					}
